@@ -1,2 +1,12 @@
 import SpoxModel.Props.C15
 /-! `#print axioms` for every property theorem of C15; parsed by ./check. -/
+#print axioms C15.check_sound
+#print axioms C15.construct_total
+#print axioms C15.no_bad_value
+#print axioms C15.types_unaffected
+#print axioms C15.off_is_transparent
+#print axioms C15.raise_is_off
+#print axioms C15.valueless_input_propagates_nothing
+#print axioms C15.construct_total_counterexample
+#print axioms C15.no_bad_value_counterexample
+#print axioms C15.off_is_transparent_counterexample
